@@ -3,17 +3,22 @@ import Abasic.Proofs.DataRoundTrip
   C14, continued — the LIST fixed point
       `tokenize line 0 = .ok ts → tokenize (listLine ts) 0 = .ok ts`.
 
-  As stated, without hypotheses on `NumOps`, it is FALSE for IEEE doubles
-  (`list_fixpoint_numeral_counterexample`: `A .99999999999999999999` is stored as
-  `A`, `1`, listed as `A 1`, read back as the identifier `A1`).  Proved here:
+  The carrier of numbers is abstract (`NumOps`), so the statement needs laws about
+  `parse`/`render`.  Proved here:
 
+   * `list_fixpoint`          — for every line, from the single hypothesis `NumLaws F`
+                                (three laws of `parse`/`render`, section 9);
    * `list_fixpoint_plain`    — unconditionally, for lines without numbers (keywords,
                                 operators, identifiers, strings, REM, DATA with string
                                 items only);
    * `list_fixpoint_partial'` — for every line, under three hypotheses about how the
                                 numbers of that line are rendered (`RenderOK`, `FracOK`,
                                 `DataNumOK`);
-   * `list_fixpoint_partial`  — the same with the hypotheses in the raw form `NumsOK`.
+   * `list_fixpoint_partial`  — the same with the hypotheses in the raw form `NumsOK`;
+   * `list_fixpoint_rounding_repaired` — the line `PRINT A .99999999999999999999`, which
+                                violated the fixed point before `listSpellings` was
+                                repaired (the numeral rounds to 1, was listed as `A 1`
+                                and read back as the identifier `A1`), now satisfies it.
 
   Stages:
    A. `nextToken_listed`  — one listed token followed by the listed rest is read
@@ -126,7 +131,10 @@ def spell (prev : Option (Token F)) (t : Token F) : Str :=
   let s := t.render
   match prev, t with
   | some (.symbol sym), .num _ =>
-    if !endsWithDollar sym && s.head? == some '0' then (if s == ['0'] then ['.', '0'] else s.tail) else s
+    if endsWithDollar sym then s
+    else if s == ['0'] then ['.', '0']
+    else if s == ['1'] then ".99999999999999999999".toList
+    else if s.head? == some '0' then s.tail else s
   | _, _ => s
 
 theorem listSpellings_cons (prev : Option (Token F)) (t : Token F) (rest : List (Token F)) :
@@ -1171,13 +1179,14 @@ def RenderOK (x : F) : Prop :=
   ∃ h tl, NumOps.render x = h :: tl ∧ (∀ c ∈ h :: tl, digdot c = true) ∧
     NumOps.parse (F := F) (h :: tl) = some x
 
-/-- `render x` starts with the zero that LIST drops after an identifier, and what is
-    listed instead (`.0` for `0`, else the text after the zero, which starts with the
-    point) parses back to `x`.  (For IEEE doubles this fails for the numerals below 1
-    that round to 1, see `list_fixpoint_numeral_counterexample`.) -/
+/-- What LIST prints for `x` right after an identifier parses back to `x`: `render x` is
+    `0` (listed `.0`), or starts with the zero that LIST drops (listed as the text after
+    the zero, which starts with the point), or is `1` — a leading-point numeral that
+    rounded up — (listed `.99999999999999999999`, which must round up the same way). -/
 def FracOK (x : F) : Prop :=
   (NumOps.render x = ['0'] ∧ NumOps.parse (F := F) ['.', '0'] = some x) ∨
-  (∃ tl, NumOps.render x = '0' :: '.' :: tl ∧ NumOps.parse (F := F) ('.' :: tl) = some x)
+  (∃ tl, NumOps.render x = '0' :: '.' :: tl ∧ NumOps.parse (F := F) ('.' :: tl) = some x) ∨
+  (NumOps.render x = ['1'] ∧ NumOps.parse (F := F) ".99999999999999999999".toList = some x)
 
 theorem numOK_of_render (prev : Option (Token F)) (x : F) (h1 : RenderOK x)
     (h2 : NonDollarSym prev → FracOK x) : NumOK prev x := by
@@ -1203,7 +1212,11 @@ theorem numOK_of_render (prev : Option (Token F)) (x : F) (h1 : RenderOK x)
           injection hs with hs; injection hs with hs
           subst hs; rw [hdl] at hd'; cases hd'
       | false =>
-        rcases h2 ⟨sym, rfl, hdl⟩ with ⟨r0, p0⟩ | ⟨tl', r1, p1⟩
+        rcases h2 ⟨sym, rfl, hdl⟩ with ⟨r0, p0⟩ | ⟨tl', r1, p1⟩ | ⟨r2, p2⟩
+        rotate_left 2
+        · refine ⟨'.', "99999999999999999999".toList, ?_, ?_, p2, fun _ => rfl⟩
+          · simp [spell, hdl, Token.render, r2]
+          · decide
         · refine ⟨'.', ['0'], ?_, ?_, p0, fun _ => rfl⟩
           · simp [spell, hdl, Token.render, r0]
           · intro c hc
@@ -1296,56 +1309,59 @@ theorem list_fixpoint_plain (line : Str) (ts : List (Token F))
     tokenize (F := F) (listLine ts) 0 = .ok ts :=
   list_fixpoint_partial line ts h (numsOK_of_plain none ts hp)
 
-/-! ### 7. the unrestricted statement is false -/
+/-! ### 7. the rounding case, repaired -/
 
-/-- **Counterexample to the unrestricted `list_fixpoint`.**  On any carrier where
-    `.99999999999999999999` parses to a finite number that is rendered as `1` (IEEE
-    doubles: the literal rounds to 1.0, and the model's `Float` instance evaluates so),
-    the line `A .99999999999999999999` tokenizes to the identifier `A` and that number,
-    is listed as `A 1` (the rule that drops a leading zero finds none), and the listed
-    text tokenizes to the single identifier `A1`. -/
-theorem list_fixpoint_numeral_counterexample (x : F)
+/-- **The rounding case.**  On any carrier where `.99999999999999999999` parses to a finite
+    number that is rendered as `1` (IEEE doubles: the literal rounds to 1.0), the line
+    `PRINT A .99999999999999999999` is stored as `PRINT`, `A`, that number; it is listed as
+    the very same text, and the listed text tokenizes to the stored tokens.
+
+    (Before the repair of `listSpellings` — a numeral `1` after an identifier was listed
+    as `1` — this line violated the fixed point: it was listed as `PRINT A 1`, which
+    tokenizes to `PRINT`, `A1`.  That was proved here as
+    `list_fixpoint_numeral_counterexample` against the earlier model and confirmed on the
+    implementation, which was then repaired.) -/
+theorem list_fixpoint_rounding_repaired (x : F)
     (hp : NumOps.parse (F := F) ".99999999999999999999".toList = some x)
     (hf : NumOps.isFinite x = true) (hr : NumOps.render x = ['1']) :
-    tokenize (F := F) "A .99999999999999999999".toList 0 = .ok [.symbol ['A'], .num x] ∧
-    listLine [Token.symbol ['A'], .num x] = "A 1".toList ∧
-    tokenize (F := F) (listLine [Token.symbol ['A'], .num x]) 0 = .ok [.symbol ['A', '1']] := by
-  have l : listLine [Token.symbol ['A'], .num x] = "A 1".toList := by
-    simp [listLine, listSpellings, Token.render, hr, endsWithDollar, joinWith]
-  refine ⟨?_, l, ?_⟩
-  · apply tokenize_of_toks
+    tokenize (F := F) "PRINT A .99999999999999999999".toList 0 =
+      .ok [.kw .Print, .symbol ['A'], .num x] ∧
+    listLine [Token.kw .Print, .symbol ['A'], .num x] = "PRINT A .99999999999999999999".toList ∧
+    tokenize (F := F) (listLine [Token.kw .Print, .symbol ['A'], .num x]) 0 =
+      .ok [.kw .Print, .symbol ['A'], .num x] := by
+  have h1 : tokenize (F := F) "PRINT A .99999999999999999999".toList 0 =
+      .ok [.kw .Print, .symbol ['A'], .num x] := by
+    apply tokenize_of_toks
     have e : nextToken (F := F) ".99999999999999999999".toList =
         (match NumOps.parse (F := F) ".99999999999999999999".toList with
          | some x => if NumOps.isFinite x then .tok (.num x) [] else .invalidNumber []
          | none => .invalidNumber []) := rfl
+    refine Toks.cons (c := 'P') (r := "RINT A .99999999999999999999".toList)
+      (r' := " A .99999999999999999999".toList) rfl rfl ?_
     refine Toks.cons (c := 'A') (r := " .99999999999999999999".toList)
       (r' := " .99999999999999999999".toList) rfl rfl ?_
     refine Toks.cons (c := '.') (r := "99999999999999999999".toList) (r' := []) rfl ?_ (Toks.nil rfl)
     rw [show ('.' :: "99999999999999999999".toList) = ".99999999999999999999".toList from rfl, e, hp]
     simp only [hf, if_true]
-  · rw [l]; rfl
+  have l : listLine [Token.kw .Print, .symbol ['A'], .num x] = "PRINT A .99999999999999999999".toList := by
+    simp [listLine, listSpellings, Token.render, hr, endsWithDollar, joinWith, Extracted.kwSpelling]
+  have hn : NumsOK none [Token.kw .Print, .symbol ['A'], .num x] := by
+    refine ⟨⟨(fun y e => by cases e), (fun i e => by cases e)⟩,
+      ⟨(fun y e => by cases e), (fun i e => by cases e)⟩, ⟨?_, (fun i e => by cases e)⟩, trivial⟩
+    intro y e
+    injection e with e
+    subst e
+    refine ⟨'.', "99999999999999999999".toList, ?_, by decide, hp, fun _ => rfl⟩
+    simp [spell, Token.render, hr, endsWithDollar]
+  exact ⟨h1, l, list_fixpoint_partial _ _ h1 hn⟩
 
-/-- … so for that line the fixed point fails. -/
-theorem list_fixpoint_false_of_rounding (x : F)
-    (hp : NumOps.parse (F := F) ".99999999999999999999".toList = some x)
-    (hf : NumOps.isFinite x = true) (hr : NumOps.render x = ['1']) :
-    ∃ (line : Str) (ts : List (Token F)), tokenize (F := F) line 0 = .ok ts ∧
-      tokenize (F := F) (listLine ts) 0 ≠ .ok ts := by
-  obtain ⟨h1, _, h3⟩ := list_fixpoint_numeral_counterexample x hp hf hr
-  refine ⟨_, _, h1, ?_⟩
-  rw [h3]
-  intro e
-  injection e with e
-  injection e with _ e
-  cases e
-
-/-- The hypotheses of the counterexample are satisfiable (a toy carrier; for IEEE
-    doubles they hold by correct rounding). -/
-example : ∃ (F : Type) (inst : NumOps F) (line : Str) (ts : List (Token F)),
-    @tokenize F inst line 0 = .ok ts ∧ @tokenize F inst (@listLine F inst ts) 0 ≠ .ok ts := by
-  let inst : NumOps Unit :=
-    { (inferInstance : NumOps Unit) with parse := fun _ => some (), render := fun _ => ['1'] }
-  exact ⟨Unit, inst, @list_fixpoint_false_of_rounding Unit inst () rfl rfl rfl⟩
+/-- The hypotheses of `list_fixpoint_rounding_repaired` are satisfiable (a toy carrier; for
+    IEEE doubles they hold by correct rounding). -/
+example : ∃ (F : Type) (inst : NumOps F) (x : F),
+    @NumOps.parse F inst ".99999999999999999999".toList = some x ∧ @NumOps.isFinite F inst x = true ∧
+    @NumOps.render F inst x = ['1'] :=
+  ⟨Unit, { (inferInstance : NumOps Unit) with parse := fun _ => some (), render := fun _ => ['1'] },
+    (), rfl, rfl, rfl⟩
 
 /-! ### 8. non-vacuity -/
 
@@ -1378,5 +1394,215 @@ example :
     tokenize (F := Unit) (listLine exampleDataTokens) 0 = .ok exampleDataTokens := by
   have h : tokenize (F := Unit) "d ata a\"b , \"c, d\" e,x :pr int a$".toList 0 = .ok exampleDataTokens := rfl
   exact ⟨h, rfl, list_fixpoint_plain _ _ h rfl⟩
+
+/-! ### 9. the fixed point from one hypothesis about the number carrier -/
+
+/-- What the fixed point needs of the number carrier, as laws of `parse`/`render`:
+    * `numeral`: a finite number obtained by parsing a digits-and-points text is rendered
+      with digits and points only, and that rendering parses back to it;
+    * `leadingPoint`: if the parsed text starts with the point, the rendering is `0`
+      (and `.0` parses to the number), or `0.`+digits (and `.`+digits parses to it), or `1`
+      (and `.99999999999999999999` parses to it);
+    * `dataItem`: a number obtained by parsing any text (a DATA item) is rendered as a text
+      that is not blank at either end, does not start with a quote, contains no comma or
+      colon, and parses back to it. -/
+structure NumLaws (F : Type) [NumOps F] : Prop where
+  numeral : ∀ (d : Str) (x : F), d ≠ [] → (∀ c ∈ d, digdot c = true) →
+    NumOps.parse (F := F) d = some x → NumOps.isFinite x = true → RenderOK x
+  leadingPoint : ∀ (d : Str) (x : F), (∀ c ∈ d, digdot c = true) →
+    NumOps.parse (F := F) ('.' :: d) = some x → NumOps.isFinite x = true → FracOK x
+  dataItem : ∀ (s : Str) (x : F), NumOps.parse (F := F) s = some x → DataNumOK x
+
+theorem numLoop_digdot (cs : Str) : ∀ c ∈ (numLoop cs).1, digdot c = true := by
+  induction cs with
+  | nil => intro c hc; cases hc
+  | cons x cs ih =>
+    by_cases hb : isBasicWs x = true
+    · rw [numLoop_blank x hb]
+      by_cases he : (numLoop cs).1.isEmpty = true
+      · rw [if_pos he]; intro c hc; cases hc
+      · rw [if_neg he]; exact ih
+    · by_cases hg : (isAsciiDigit x || x == '.') = true
+      · rw [numLoop_digit x hb hg]
+        intro c hc
+        rcases List.mem_cons.mp hc with rfl | hc
+        · exact hg
+        · exact ih c hc
+      · rw [numLoop_other x hb hg]; intro c hc; cases hc
+
+/-- where a numeral, identifier or DATA token comes from -/
+theorem nextToken_inv (c : Char) (r : Str) (t : Token F) (r' : Str)
+    (hn : nextToken (F := F) (c :: r) = .tok t r') :
+    (∀ x, t = .num x → ∃ d, numLoop (c :: r) = (d, r') ∧ d ≠ [] ∧
+      NumOps.parse (F := F) d = some x ∧ NumOps.isFinite x = true) ∧
+    (∀ s, t = .symbol s → symLoop true (c :: r) = (s, r') ∧ s ≠ []) ∧
+    (∀ items, t = .data items → ∃ r0, items = (parseData (F := F) r0).1) := by
+  cases k1 : chompAnyKeyword (c :: r) with
+  | some p =>
+    obtain ⟨k, rr⟩ := p
+    rw [nextToken_kw _ k rr k1] at hn
+    injection hn with e1 e2
+    subst e1
+    exact ⟨(fun x e => by cases e), (fun s e => by cases e), (fun i e => by cases e)⟩
+  | none =>
+    cases o1 : chompOneOrTwo (c :: r) with
+    | some p =>
+      obtain ⟨k, rr⟩ := p
+      rw [nextToken_op _ k rr k1 o1] at hn
+      injection hn with e1 e2
+      subst e1
+      exact ⟨(fun x e => by cases e), (fun s e => by cases e), (fun i e => by cases e)⟩
+    | none =>
+      by_cases hq : c = '"'
+      · subst hq
+        rw [nextToken_quote r k1 o1] at hn
+        cases hs : splitAtQuote r with
+        | none => rw [hs] at hn; cases hn
+        | some p =>
+          obtain ⟨s, rr⟩ := p
+          rw [hs] at hn
+          simp only at hn
+          injection hn with e1 e2
+          subst e1
+          exact ⟨(fun x e => by cases e), (fun s e => by cases e), (fun i e => by cases e)⟩
+      · rw [nextToken_noquote c r hq k1 o1] at hn
+        unfold afterQuote at hn
+        generalize hnl : numLoop (c :: r) = a at hn
+        obtain ⟨ds, rr⟩ := a
+        cases ds with
+        | cons x d =>
+          simp only at hn
+          cases hp : NumOps.parse (F := F) (x :: d) with
+          | none => rw [hp] at hn; cases hn
+          | some v =>
+            rw [hp] at hn
+            simp only at hn
+            by_cases hf : NumOps.isFinite v = true
+            · rw [if_pos hf] at hn
+              injection hn with e1 e2
+              subst e1; subst e2
+              refine ⟨?_, (fun s e => by cases e), (fun i e => by cases e)⟩
+              intro y e
+              injection e with e
+              subst e
+              exact ⟨x :: d, rfl, by simp, hp, hf⟩
+            · rw [if_neg hf] at hn; cases hn
+        | nil =>
+          simp only at hn
+          cases h1 : chompKeyword Extracted.remKeyword.toList (c :: r) with
+          | some s =>
+            rw [h1] at hn
+            simp only at hn
+            injection hn with e1 e2
+            subst e1
+            exact ⟨(fun x e => by cases e), (fun s e => by cases e), (fun i e => by cases e)⟩
+          | none =>
+            rw [h1] at hn
+            simp only at hn
+            cases h2 : chompKeyword Extracted.dataKeyword.toList (c :: r) with
+            | some s =>
+              rw [h2] at hn
+              simp only at hn
+              injection hn with e1 e2
+              subst e1
+              refine ⟨(fun x e => by cases e), (fun s e => by cases e), ?_⟩
+              intro items e
+              injection e with e
+              exact ⟨s, e.symm⟩
+            | none =>
+              rw [h2] at hn
+              simp only at hn
+              generalize hsl : symLoop true (c :: r) = b at hn
+              obtain ⟨ss, u⟩ := b
+              cases ss with
+              | nil => simp only at hn; cases hn
+              | cons y e =>
+                simp only at hn
+                injection hn with e1 e2
+                subst e1; subst e2
+                refine ⟨(fun x e => by cases e), ?_, (fun i e => by cases e)⟩
+                intro s e'
+                injection e' with e'
+                subst e'
+                exact ⟨rfl, by simp⟩
+
+/-- after an identifier that does not end in `$`, a keyword starts or the text does not
+    continue the identifier -/
+theorem symOK_end (first : Bool) (s R : Str) (h : SymOK first s R) (hd : endsWithDollar s = false) :
+    anyKw (sq R) = true ∨ endFree (sq R) = true := by
+  induction s generalizing first with
+  | nil => exact h.elim
+  | cons c d ih =>
+    obtain ⟨_, _, _, _, h2, h3⟩ := h
+    cases d with
+    | nil =>
+      rw [endsWithDollar_singleton] at hd
+      exact h2 (by intro e; rw [e] at hd; cases hd) rfl
+    | cons e d' =>
+      rw [endsWithDollar_cons_cons] at hd
+      exact ih false (h3 (by simp)).2 hd
+
+/-- Under `NumLaws`, every tokenizer output satisfies the numeral hypotheses. -/
+theorem numsOK_of_toks (laws : NumLaws F) {cs : Str} {ts : List (Token F)} (h : Toks cs ts) :
+    ∀ prev, (NonDollarSym prev → ∀ c r, skipWs cs = c :: r → digdot c = true → c = '.') →
+    NumsOK prev ts := by
+  induction h with
+  | nil _ => intro _ _; trivial
+  | @cons cs c r t r' ts hs hn ht ih =>
+    intro prev hprev
+    obtain ⟨i1, i2, i3⟩ := nextToken_inv c r t r' hn
+    have hb := skipWs_nonblank cs c r hs
+    refine ⟨⟨?_, ?_⟩, ih (some t) ?_⟩
+    · intro x e
+      obtain ⟨d, hnl, hne, hp, hf⟩ := i1 x e
+      have hcd := digdot_of_numLoop c r d r' hb hnl hne
+      have hall : ∀ y ∈ d, digdot y = true := by
+        have := numLoop_digdot (c :: r)
+        rw [hnl] at this
+        exact this
+      have hd1 : d = c :: (numLoop r).1 := by
+        have := numLoop_digit c (by rw [hb]; simp) hcd r
+        rw [hnl] at this
+        exact congrArg Prod.fst this
+      refine numOK_of_render prev x (laws.numeral d x hne hall hp hf) ?_
+      intro hnds
+      have hc := hprev hnds c r hs hcd
+      subst hc
+      rw [hd1] at hp hall
+      exact laws.leadingPoint _ x (fun y hy => hall y (List.mem_cons_of_mem _ hy)) hp hf
+    · intro items e x hx
+      obtain ⟨r0, hi⟩ := i3 items e
+      subst hi
+      obtain ⟨s, hs'⟩ := (parseData_spec (F := F) r0).2.1 _ hx
+      exact laws.dataItem s x hs'
+    · rintro ⟨sym, hs', hd⟩ c2 r2 hs2 hdig
+      injection hs' with hs'
+      obtain ⟨hsl, hne⟩ := i2 sym hs'
+      obtain ⟨ok, _⟩ := symOK_of_symLoop true (c :: r) sym r' r' hsl hne (Sim.refl _) (fun _ h => h)
+      have hsq := sq_of_skipWs_cons r' c2 r2 hs2
+      have hna : isAsciiAlpha (asciiUpper c2) = false := by
+        rw [upperEq_alpha (upper_idem c2)]; exact digdot_not_alpha c2 hdig
+      rcases symOK_end true sym r' ok hd with hk | he
+      · rw [hsq, anyKw_head_nonalpha _ _ hna] at hk; cases hk
+      · rw [hsq] at he
+        simp only [endFree, headAll, upper_symValid] at he
+        have hv : symValid false c2 = false := by simpa using he
+        simp only [symValid, Bool.false_eq_true, if_false, Bool.or_eq_false_iff, isAsciiAlnum] at hv
+        have hdg : isAsciiDigit c2 = false := hv.1.2
+        simp only [digdot, hdg, Bool.false_or, beq_iff_eq] at hdig
+        exact hdig
+
+/-- **LIST fixed point** from one hypothesis about the number carrier: if `parse`/`render`
+    satisfy `NumLaws`, the listed text of every stored line tokenizes to the stored tokens.
+    (The numerals of `ts` need no separate hypothesis: `ts` is a tokenizer output, so each
+    of them was obtained by parsing.) -/
+theorem list_fixpoint (laws : NumLaws F) (line : Str) (ts : List (Token F))
+    (h : tokenize (F := F) line 0 = .ok ts) : tokenize (F := F) (listLine ts) 0 = .ok ts :=
+  list_fixpoint_partial line ts h
+    (numsOK_of_toks laws (toks_of_tokenize line ts h) none (by rintro ⟨sym, hs, _⟩; cases hs))
+
+/-- `NumLaws` is satisfiable (trivially so on the degenerate carrier, which parses nothing). -/
+example : NumLaws Unit :=
+  ⟨(fun _ _ _ _ hp => by cases hp), (fun _ _ _ hp => by cases hp), (fun _ _ hp => by cases hp)⟩
 
 end Abasic.Props.C14
